@@ -68,7 +68,7 @@ func suiteFor(sem *Sem) []Req {
 	}
 	// headers
 	names := sem.discreteHdrNames()
-	hs := [][]string{{"authorization"}, {"x-unlisted"}, {"content-type"}, {"authorization,content-type"}, {"AUTHORIZATION"}, {""}, {"x-listed-1"}, {"x-listed-1,x-listed-2"}, {"x-listed-2,x-listed-1"}}
+	hs := [][]string{{"authorization"}, {"x-unlisted"}, {"content-type"}, {"accept-language"}, {"accept,content-language"}, {"authorization,content-type"}, {"AUTHORIZATION"}, {""}, {"x-listed-1"}, {"x-listed-1,x-listed-2"}, {"x-listed-2,x-listed-1"}}
 	for _, n := range names {
 		hs = append(hs, []string{n}, []string{asciiUpper(n)})
 	}
